@@ -20,12 +20,15 @@ type roVec struct {
 	Caller  string `json:"caller"`
 	Variant string `json:"variant"`
 	Mut     bool   `json:"mut"`
+	Stray   string `json:"stray"`
 }
 
 type roLine struct {
 	Route   string `json:"route"`
 	Caller  string `json:"caller"`
 	Variant string `json:"variant"`
+	Stray   string `json:"stray"`
+	Pass    string `json:"pass"`
 	Status  int    `json:"status"`
 	Changed bool   `json:"changed"`
 	RW      int    `json:"rw"`
@@ -38,7 +41,7 @@ type roLine struct {
 var roCaller = map[string]string{"root": "root", "admin": "c3adm", "userplus-owner": "c3upo", "user-owner": "c3uso", "user-grantee": "c3usg"}
 
 func C15(c *core.Ctx, replay string) {
-	c.Rule = "TLC enumerates every S3 route of the route table ApiRoutes x caller (root, admin, userplus owner, user owner, policy grantee) x target variant (current, an older version, copy from another bucket); a storage populated through a read-write gateway (objects with versions, tags, open multipart uploads with a part, bucket settings, lock-enabled versioned buckets) is then served by a gateway started in read-only mode; every vector is one real request; the storage must be byte-identical afterwards, mutating routes must be refused with a 4xx, and read routes must answer as they did read-write. Each observation is validated by TLC against ReadOnly!ObsClass. Non-trivial: a vector whose route is mutating."
+	c.Rule = "TLC enumerates every S3 route of the route table ApiRoutes x caller (root, admin, userplus owner, user owner, policy grantee) x target variant (current, an older version, copy from another bucket); a storage populated through a read-write gateway (objects with versions, tags, open multipart uploads with a part, bucket settings, lock-enabled versioned buckets) is then served by a gateway started in read-only mode; every vector is one real request, sent in three passes (the enumeration's order; every mutating route once more with each of 16 stray second sub-resource parameters by root, the grantee (and at the thorough tier the user owner); per caller all reads first and then all mutating requests); the storage must be byte-identical afterwards, mutating routes must be refused with a 4xx, and read routes must answer as they did read-write. Each observation is validated by TLC against ReadOnly!ObsClass. Non-trivial: a vector whose route is mutating."
 	c.Assumptions = []string{"admin account-management routes are not S3 API requests (outside the statement)", "the storage is compared byte-wise incl. user xattrs over the root and the versioning directory (and the sidecar directory when used)"}
 	res, err := tlc.Run(c.Scratch, tlc.Opts{Module: "ROVec"})
 	if err != nil || !res.OK {
@@ -139,12 +142,25 @@ func C15(c *core.Ctx, replay string) {
 			if v.Route == "CreateBucket" {
 				t.Bucket = "ro-new-bucket"
 			}
-			return fx.Client(roCaller[v.Caller]), rt.Build(t), true
+			req := rt.Build(t)
+			if v.Stray != "" {
+				for _, kv := range strings.Split(v.Stray, "&") {
+					k, val, _ := strings.Cut(kv, "=")
+					dup := false
+					for _, q := range req.Query {
+						dup = dup || q.K == k
+					}
+					if !dup {
+						req.Query = append(req.Query, s3c.KV{K: k, V: val})
+					}
+				}
+			}
+			return fx.Client(roCaller[v.Caller]), req, true
 		}
 		// (1) the same requests read-write: what a read request answers when it works
 		rw := map[string]int{}
 		for _, v := range vecs {
-			if v.Mut {
+			if v.Mut || v.Stray != "" {
 				continue
 			}
 			cl, req, ok := build(v)
@@ -176,15 +192,51 @@ func C15(c *core.Ctx, replay string) {
 			time.Sleep(d)
 		}
 		before := fsnap.Take(roots, fsnap.Opts{})
+		// the passes: (a) the plain vectors in the enumeration's order, (b) the stray-parameter
+		// requests, (c) per caller every read first, then every mutating request
+		type job struct {
+			v    roVec
+			pass string
+		}
+		var jobs []job
 		for _, v := range vecs {
-			if only != nil && (only.Route != v.Route || only.Caller != v.Caller || only.Variant != v.Variant) {
+			if v.Stray == "" {
+				jobs = append(jobs, job{v, "mixed"})
+			}
+		}
+		for _, v := range vecs {
+			if v.Stray != "" && (c.Thorough() || v.Caller != "user-owner") {
+				jobs = append(jobs, job{v, "stray"})
+			}
+		}
+		for _, caller := range []string{"root", "admin", "userplus-owner", "user-owner", "user-grantee"} {
+			for _, mut := range []bool{false, true} {
+				for _, v := range vecs {
+					if v.Stray == "" && v.Caller == caller && v.Mut == mut {
+						jobs = append(jobs, job{v, "reads-first"})
+					}
+				}
+			}
+		}
+		for _, jb := range jobs {
+			v := jb.v
+			if only != nil && (only.Route != v.Route || only.Caller != v.Caller || only.Variant != v.Variant || only.Stray != v.Stray || only.Pass != jb.pass) {
 				continue
+			}
+			if only != nil && only.Pass == "reads-first" {
+				// the reads of this caller first
+				for _, rv := range vecs {
+					if rv.Stray == "" && rv.Caller == v.Caller && !rv.Mut {
+						cl, req, _ := build(rv)
+						cl.Do(req)
+					}
+				}
 			}
 			cl, req, _ := build(v)
 			r := cl.Do(req)
 			after := fsnap.Take(roots, fsnap.Opts{})
 			diff := fsnap.Diff(before, after)
-			l := roLine{Route: v.Route, Caller: v.Caller, Variant: v.Variant, Status: r.Status, Changed: len(diff) > 0,
+			l := roLine{Route: v.Route, Caller: v.Caller, Variant: v.Variant, Stray: v.Stray, Pass: jb.pass, Status: r.Status, Changed: len(diff) > 0,
 				RW: rw[v.Route+"|"+v.Caller+"|"+v.Variant], Code: r.Code, Config: cf.name}
 			if len(diff) > 6 {
 				diff = diff[:6]
@@ -198,7 +250,7 @@ func C15(c *core.Ctx, replay string) {
 			meta = append(meta, l)
 			nt := ""
 			if v.Mut {
-				nt = cf.name + "|" + v.Route + "|" + v.Caller + "|" + v.Variant
+				nt = cf.name + "|" + v.Route + "|" + v.Caller + "|" + v.Variant + "|" + v.Stray + "|" + jb.pass
 			}
 			c.Eval(nt)
 			if l.Changed {
@@ -243,6 +295,6 @@ func C15(c *core.Ctx, replay string) {
 		}
 		cls := v.Classes[i]
 		c.Violation(core.FP("C15", cls, l.Route, who),
-			fmt.Sprintf("read-only gateway (%s): %s by %s (%s) answered %d %s; storage changes: %s", l.Config, l.Route, l.Caller, l.Variant, l.Status, l.Code, strings.Join(l.Diff, ", ")), l)
+			fmt.Sprintf("read-only gateway (%s): %s by %s (%s%s, pass %s) answered %d %s; storage changes: %s", l.Config, l.Route, l.Caller, l.Variant, l.Stray, l.Pass, l.Status, l.Code, strings.Join(l.Diff, ", ")), l)
 	}
 }
